@@ -248,7 +248,11 @@ class Evaluator:
                 elif v.format_spec is None and v.conversion == -1:
                     parts.append(App("str", (t,), v))
                 else:
-                    spec = ast.unparse(v.format_spec) if v.format_spec is not None else ""
+                    fs = v.format_spec
+                    if isinstance(fs, ast.JoinedStr) and all(isinstance(x, ast.Constant) for x in fs.values):
+                        spec = "".join(str(x.value) for x in fs.values)  # a literal format specification such as 02x
+                    else:
+                        spec = ast.unparse(fs) if fs is not None else ""
                     parts.append(App("fmt", (t, Const(spec), Const(v.conversion)), v))
         return mk_cat(parts, e) if parts else Const("")
 
